@@ -37,18 +37,37 @@ def parse_spec(line):
     return {"settings": settings, "dgs": dgs, "bz": bz, "expected": expected, "tags": tags}
 
 
-def spec_case(seed, comps=(None, None, None)):
+def spec_case(seed, comps=(None, None, None), gather=None):
+    """gather: None (generated) or (players, rules, check) with toggles 0=Skip 1=Try 2=Enforce"""
     b = bytes([110]) + seed.to_bytes(8, "big")
     for c in comps:
         b += b"\x00" if c is None else b"\x01" + len(c).to_bytes(4, "big") + c
+    b += b"\x00" if gather is None else bytes([1, gather[0], gather[1], 1 if gather[2] else 0])
     return b.hex()
 
 
-def specs(seeds, compressed_every=0):
+def enc_ts(ts):
+    """ts: None or dict(connect, read, write: None|(secs,nanos); retries)"""
+    if ts is None:
+        return b"\x00"
+    out = b"\x01"
+    for k in ("connect", "read", "write"):
+        d = ts.get(k, (4, 0))
+        out += b"\x00" if d is None else b"\x01" + d[0].to_bytes(8, "big") + d[1].to_bytes(4, "big")
+    return out + ts.get("retries", 0).to_bytes(8, "big")
+
+
+def with_ts(settings, ts):
+    """the generated settings end with the encoding of `None` timeout settings"""
+    assert settings[-1] == 0
+    return settings[:-1] + enc_ts(ts)
+
+
+def specs(seeds, compressed_every=0, gather=None):
     """Run the extracted Spec on the seeds. compressed_every=k: every k-th seed
     gets bzip2-compressed transports (two passes: the first yields the packets
     to compress)."""
-    outs = [parse_spec(l) for l in run_model([spec_case(s) for s in seeds])]
+    outs = [parse_spec(l) for l in run_model([spec_case(s, gather=gather) for s in seeds])]
     if compressed_every:
         idx = [i for i in range(len(seeds)) if i % compressed_every == 0]
         second = []
@@ -56,7 +75,7 @@ def specs(seeds, compressed_every=0):
             pk = [bytes.fromhex(x) for x in outs[i]["tags"]["pk"].split(",")]
             which = seeds[i] % 7 + 1     # bit mask of replies to compress
             comps = tuple(bz2.compress(p) if (which >> j) & 1 else None for j, p in enumerate(pk))
-            second.append(spec_case(seeds[i], comps))
+            second.append(spec_case(seeds[i], comps, gather))
         for i, l in zip(idx, run_model(second)):
             outs[i] = parse_spec(l)
     for o, s in zip(outs, seeds):
@@ -70,3 +89,155 @@ def split_result(line):
         return None, None
     i = line.rfind("|")
     return (line[:i], line[i + 1:]) if i >= 0 else (line, "")
+
+
+def is_split(d):
+    return d[:4] == b"\xfe\xff\xff\xff"
+
+
+def is_challenge(d):
+    return d[:5] == b"\xff\xff\xff\xff\x41"
+
+
+def reply_groups(spec):
+    """Partition the script of a spec case into its replies (info, players,
+    rules; skipped sections are absent): [(challenge packets, body packets)]"""
+    tags, dgs = spec["tags"], spec["dgs"]
+    counts = []
+    for t in tags["t"].split("/"):
+        digits = "".join(c for c in t if c.isdigit())
+        counts.append(int(digits) if digits else 1)
+    chs = [int(c) for c in tags["ch"]]
+    present = [True, tags["g"][1] != "0", tags["g"][3] != "0"]
+    groups, i = [], 0
+    for k in range(3):
+        if not present[k]:
+            continue
+        if i >= len(dgs):
+            break
+        ch = dgs[i:i + chs[k]]; i += chs[k]
+        body = dgs[i:i + counts[k]]; i += counts[k]
+        groups.append((ch, body))
+    return groups
+
+
+def flatten(groups):
+    out = []
+    for ch, body in groups:
+        out += ch + body
+    return out
+
+
+# ---- fault scripts (C10, C11) ----
+MALFORMED = b"\xff\xff"          # too short for a packet header: PacketUnderflow, not a timeout
+KINDS = [0x54, 0x55, 0x56]
+
+
+def variants(seed, compressed=False):
+    """The same server state under the four present/absent combinations of the
+    players and rules sections: {(p, r): spec}. Scripts come from the full one."""
+    out = {}
+    for p in (1, 0):
+        for r in (1, 0):
+            out[(p, r)] = specs([seed], compressed_every=1 if compressed else 0, gather=(p, r, True))[0]
+    return out
+
+
+def build_fault_script(groups, vectors):
+    """groups: [(challenges, body)] per requested unit; vectors: per unit a list
+    of attempt kinds 'silent' | 'sendfail' | 'malformed' | 'valid' | 'chsilent'.
+    Returns (events, send_fail indices)."""
+    events, fails, sends = [], [], 0
+    for (ch, body), vec in zip(groups, vectors):
+        for a in vec:
+            if a == "silent":
+                events.append(None); sends += 1
+            elif a == "sendfail":
+                fails.append(sends); sends += 1
+            elif a == "malformed":
+                events.append(MALFORMED); sends += 1
+            elif a == "chsilent":
+                events.append(b"\xff\xff\xff\xff\x41\x01\x02\x03\x04"); events.append(None); sends += 2
+            else:
+                events += ch + body; sends += 1 + len(ch)
+    return events, fails
+
+
+def unit_outcome(vec, r):
+    """Per the property: attempts are made while the outcome is timeout-class
+    and fewer than r+1 have been made. -> ('ok'|'timeout'|'malformed', attempts, last_kind)"""
+    made = 0
+    last = None
+    for a in vec:
+        if made >= r + 1:
+            break
+        made += 1
+        last = a
+        if a == "valid":
+            return "ok", made, a
+        if a == "malformed":
+            return "malformed", made, a
+        # silent / sendfail / chsilent (challenge answered, then silence) are timeout-class
+    return "timeout", made, last
+
+
+def initial_sends(trace, kind):
+    """number of initial requests of a kind in a trace (default payload)"""
+    pay = "536f7572636520456e67696e6520517565727900" if kind == 0x54 else "ffffffff"
+    want = "ffffffff%02x%s" % (kind, pay)
+    return sum(1 for t in trace.split(";") if t.startswith("S") and t.split(":", 1)[1] == want)
+
+
+INFO_PAYLOAD = "536f7572636520456e67696e6520517565727900"
+
+
+def request_oracle(tags, events, trace):
+    """C09 for Valve, evaluated on an observed trace: every datagram sent is an
+    initial request (fixed header, kind, default payload) or - immediately after
+    a challenge reply - the same request carrying exactly that challenge; all go
+    to the query's port; nothing else is sent. events: the script (bytes/None)."""
+    port = tags.get("port")
+    gold = tags.get("e") == "gold"
+    evs = list(events)
+    pending = None      # challenge bytes (hex) that the next send must echo
+    collecting = 0
+    kind = None
+    for tok in trace.split(";"):
+        if not tok:
+            continue
+        if tok[0] == "R":
+            ev = evs.pop(0) if evs else None
+            if ev is None:
+                collecting = 0
+                continue
+            if collecting > 0:
+                collecting -= 1
+                continue
+            if ev[:1] == b"\xfe" and len(ev) > 8:
+                total = (ev[8] & 15) if gold else ev[8]
+                collecting = max(total - 1, 0)
+            elif ev[:5] == b"\xff\xff\xff\xff\x41":
+                pending = ev[5:].hex()
+        elif tok[0] == "S":
+            p, _, data = tok[1:].partition(":")
+            if port is not None and p != port:
+                return "request sent to port %s instead of %s" % (p, port)
+            if not data.startswith("ffffffff") or len(data) < 10:
+                return "request without the simple header: " + data[:60]
+            k = data[8:10]
+            body = data[10:]
+            default = INFO_PAYLOAD if k == "54" else "ffffffff"
+            if pending is not None:
+                want = (INFO_PAYLOAD + pending) if k == "54" else pending
+                if body != want or k != kind:
+                    return "challenge %s not echoed: sent %s" % (pending, data[:120])
+                pending = None
+            else:
+                if k not in ("54", "55", "56") or body != default:
+                    return "not a request of the protocol: " + data[:120]
+                kind = k
+        elif tok[0] in "UA":
+            continue
+        else:
+            return "unexpected trace event " + tok[:40]
+    return None
